@@ -206,6 +206,9 @@ func (b *Built) build3(n *Node) (s sdf.SDF3, err error) {
 			return nil, e
 		}
 		s = sdf.Array3D(a, v3i.Vec{X: n.I[0], Y: n.I[1], Z: n.I[2]}, v3of(P, 0))
+		if n.S != "" && len(P) > 3 {
+			s.(*sdf.ArraySDF3).SetMin(MinBlend(n.S, P[3]))
+		}
 	case "rotcopy3":
 		a, e := kid3(0)
 		if e != nil {
@@ -218,6 +221,9 @@ func (b *Built) build3(n *Node) (s sdf.SDF3, err error) {
 			return nil, e
 		}
 		s = sdf.RotateUnion3D(a, n.I[0], sdf.RotateZ(P[0]))
+		if n.S != "" && len(P) > 1 {
+			s.(*sdf.RotateUnionSDF3).SetMin(MinBlend(n.S, P[1]))
+		}
 	case "extrude":
 		a, e := kid2(0)
 		if e != nil {
@@ -503,6 +509,9 @@ func (b *Built) build2(n *Node) (s sdf.SDF2, err error) {
 			return nil, e
 		}
 		s = sdf.Array2D(a, v2i.Vec{X: n.I[0], Y: n.I[1]}, v2of(P, 0))
+		if n.S != "" && len(P) > 2 {
+			s.(*sdf.ArraySDF2).SetMin(MinBlend(n.S, P[2]))
+		}
 	case "rotcopy2":
 		a, e := kid2(0)
 		if e != nil {
@@ -515,6 +524,9 @@ func (b *Built) build2(n *Node) (s sdf.SDF2, err error) {
 			return nil, e
 		}
 		s = sdf.RotateUnion2D(a, n.I[0], sdf.Rotate2d(P[0]))
+		if n.S != "" && len(P) > 1 {
+			s.(*sdf.RotateUnionSDF2).SetMin(MinBlend(n.S, P[1]))
+		}
 	case "slice2":
 		a, e := b.build3(n.K[0])
 		if e != nil {
@@ -578,17 +590,18 @@ func Finite(xs ...float64) bool {
 }
 
 // scribble3 / scribble2 overwrite operand slices after a constructor returned: a shape that kept
-// the caller's slice evaluates to garbage (a huge negative value everywhere, infinite box).
+// the caller's slice evaluates to garbage (a rapidly oscillating field of huge amplitude - neither
+// the operands' values, nor a distance bound, nor 1-Lipschitz - and an infinite box).
 type scribble3 struct{}
 
-func (scribble3) Evaluate(v3.Vec) float64 { return -1e30 }
+func (scribble3) Evaluate(p v3.Vec) float64 { return -1e6 + 2e6*math.Sin(1e4*(p.X+2*p.Y+3*p.Z)) }
 func (scribble3) BoundingBox() sdf.Box3 {
 	return sdf.Box3{Min: v3.Vec{X: -1e30, Y: -1e30, Z: -1e30}, Max: v3.Vec{X: 1e30, Y: 1e30, Z: 1e30}}
 }
 
 type scribble2 struct{}
 
-func (scribble2) Evaluate(v2.Vec) float64 { return -1e30 }
+func (scribble2) Evaluate(p v2.Vec) float64 { return -1e6 + 2e6*math.Sin(1e4*(p.X+2*p.Y)) }
 func (scribble2) BoundingBox() sdf.Box2 {
 	return sdf.Box2{Min: v2.Vec{X: -1e30, Y: -1e30}, Max: v2.Vec{X: 1e30, Y: 1e30}}
 }
